@@ -33,6 +33,7 @@ arriving at a loop head is the outcome RLoop k).
 A construct outside the subset raises Unsupported: the function then falls back to the
 hand-written plan of HPlans.v (`G<fn>_supported := false`) and is tied by correspondence only."""
 import os, json
+import re as _re
 from . import cast
 from .leaf import Unsupported, UNSIGNED, SIGNED
 
@@ -46,7 +47,7 @@ def load_tu(src, incs, defs):
     if key in _TU:
         return _TU[key]
     docs = cast.ast_dump(src, incs, None, defs)
-    tu = {"functions": {}, "enums": {}, "records": {}, "typedefs": {}}
+    tu = {"functions": {}, "enums": {}, "records": {}, "typedefs": {}, "globals": {}}
     def walk(n):
         if not isinstance(n, dict):
             return
@@ -76,6 +77,13 @@ def load_tu(src, incs, defs):
             if n.get("name"):
                 tu["records"][(n.get("tagUsed", "struct") + " " + n["name"])] = fields
             tu["records"]["#" + str(n.get("id"))] = fields
+        if k == "VarDecl" and "const" in n.get("type", {}).get("qualType", "") and n.get("storageClass") != "extern":
+            init = [x for x in n.get("inner", []) if x.get("kind") not in ("FullComment",)]
+            if init:
+                e = cast.expr(init[-1])
+                if e[0] == "int":
+                    tu["globals"][n.get("name")] = e[1]
+            return
         if k == "TypedefDecl":
             t = n.get("type", {})
             tu["typedefs"][n.get("name")] = t.get("desugaredQualType") or t.get("qualType")
@@ -155,6 +163,8 @@ def tok_text(t):
         return "(PRes %d)" % t[1]
     if k == "post":
         return "(PPost %s \"%s\")" % (tok_text(t[1]), t[2])
+    if k == "lsym":
+        return "(PLocal \"?%s\")" % t[1]      # classification pass only: never emitted
     raise Unsupported("pointer token " + str(k))
 
 def tok_key(t):
@@ -200,6 +210,7 @@ class St:
         self.inval = {}      # location -> how many times it was invalidated
         self.copies = {}     # (token, path) of a struct local -> (token, path) of the struct it was assigned from
         self.nres = 0        # calls returning a struct by value
+        self.defs = {}       # SSA name -> defining text (to close a value over the inputs)
         self.lets = []       # pending `let`s
     def clone(self):
         s = St()
@@ -208,6 +219,7 @@ class St:
         s.nalloc, s.ncall = self.nalloc, self.ncall
         s.stored = set(self.stored); s.havoc = self.havoc
         s.unknown = set(self.unknown); s.reach = self.reach; s.inval = dict(self.inval); s.copies = dict(self.copies); s.nres = self.nres
+        s.defs = dict(self.defs)
         s.lets = []
         return s
 
@@ -223,6 +235,9 @@ class Cx:
         self.loops = {}          # loop node id -> index (source order)
         self.loop_rest = {}      # loop index -> (loop node, continuation) at its first encounter
         self.segment = None      # None = from the function entry; k = from the head of loop k
+        self.phase = "B"         # "A": discovery (loop-carried locals are placeholders), "B": final
+        self.loopinfo = {}       # loop index -> {"assigned", "arrivals", "backs", "class", "accs"}
+        self.scalars = {}        # decl id -> (name, type) of the scalar locals and parameters
     def fresh(self, base):
         self.n += 1
         return "%s_%d" % (base, self.n)
@@ -237,6 +252,11 @@ class Cx:
         for tu in [self.tu] + list(self.alltu.values()):
             if name in tu["functions"]:
                 return tu["functions"][name]
+        return None
+    def global_const(self, name):
+        for tu in [self.tu] + list(self.alltu.values()):
+            if name in tu["globals"]:
+                return tu["globals"][name]
         return None
     def record(self, tname):
         tname = unconst(tname)
@@ -273,7 +293,8 @@ def sizeof_type(t, cx):
 ALLOC = {"_cbor_malloc": "ReqMalloc", "_cbor_realloc": "ReqRealloc", "_cbor_alloc_multiple": "ReqAllocMultiple",
          "_cbor_realloc_multiple": "ReqReallocMultiple"}
 REFCOUNT = {"cbor_incref": "Incref", "cbor_move": "Move", "cbor_intermediate_decref": "Decref"}
-PURE_LEAF = {"_cbor_safe_to_multiply": "fb_cbor_safe_to_multiply", "_cbor_safe_to_add": "fb_cbor_safe_to_add",
+PURE_LEAF = {"_cbor_encoded_header_size": "fb_cbor_encoded_header_size",
+             "_cbor_safe_to_multiply": "fb_cbor_safe_to_multiply", "_cbor_safe_to_add": "fb_cbor_safe_to_add",
              "_cbor_safe_signaling_add": "fb_cbor_safe_signaling_add", "_cbor_highest_bit": "fb_cbor_highest_bit"}
 EFF_RANK = {"Incref": 1, "Decref": 2, "Move": 3, "Store": 4, "Fill": 5, "Copy": 6, "SetPtr": 7, "SetInt": 8}
 
@@ -336,7 +357,51 @@ def let_int(st, cx, base, text):
     """bind an integer value to a fresh SSA name"""
     name = cx.fresh(base)
     st.lets.append("let %s := %s in" % (name, text))
+    st.defs[name] = text
     return name
+
+def expand(st, text):
+    """close a Gallina text over the function's inputs: replace SSA names by their definitions"""
+    for _ in range(64):
+        new = _re.sub(r"[A-Za-z_][A-Za-z_0-9']*", lambda m: "(%s)" % st.defs[m.group(0)] if m.group(0) in st.defs else m.group(0), text)
+        if new == text:
+            return unparen(text)
+        text = new
+    raise Unsupported("cyclic definitions")
+
+def unparen(t):
+    """drop redundant enclosing parentheses: ((e)) -> (e), (atom) -> atom"""
+    def matching(t):
+        d = 0
+        for i, ch in enumerate(t):
+            d += ch == "("
+            d -= ch == ")"
+            if d == 0:
+                return i == len(t) - 1
+        return False
+    while t.startswith("(") and t.endswith(")") and matching(t):
+        inner = t[1:-1]
+        if (inner.startswith("(") and inner.endswith(")") and matching(inner)) or _re.match(r"^[A-Za-z_0-9']+$", inner):
+            t = inner
+        else:
+            break
+    return t
+
+def expand_val(st, v):
+    if v[0] == "int":
+        return ("int", expand(st, v[1]))
+    if v[0] == "eptr":
+        return ("eptr", expand_tok(st, v[1]), expand(st, v[2]))
+    if v[0] == "ptr":
+        return ("ptr", expand_tok(st, v[1]), v[2])
+    return v
+
+def expand_tok(st, t):
+    if t[0] in ("field", "post"):
+        return (t[0], expand_tok(st, t[1]), t[2])
+    if t[0] == "slot":
+        return ("slot", expand_tok(st, t[1]), expand(st, t[2]), t[3])
+    return t
 
 def path_text(path):
     return ".".join(path)
@@ -356,18 +421,26 @@ def LV(n, st, cx):
                 if v[0] == "objv":          # struct passed / held by value: its members are locations
                     return ("loc", v[1], v[2])
                 return ("var", did, d.get("name"))
+            if cx.spec.get("precise"):
+                g = cx.global_const(d.get("name"))
+                if g is not None:
+                    return ("const", str(g))
             raise Unsupported("global or unknown variable " + str(d.get("name")))
         raise Unsupported("reference to " + str(d.get("kind")))
     if k == "MemberExpr":
         base = n["inner"][0]
         if n.get("isArrow"):
             p = RV(base, st, cx)
-            if p[0] != "ptr":
-                raise Unsupported("-> on a non-pointer")
-            tok, path = p[1], p[2]
-            if tok == NULL:
-                raise Unsupported("member of NULL")
-            blv = ("loc", tok, path)
+            if p[0] == "eptr" or (p[0] == "ptr" and p[2] == () and p[1] != NULL and is_elem_ptr(base, cx)):
+                # a pointer into an array of pairs: p->m is the member m of the element it points at
+                blv = ("slot", p[1], p[2] if p[0] == "eptr" else "0", ())
+            else:
+                if p[0] != "ptr":
+                    raise Unsupported("-> on a non-pointer")
+                tok, path = p[1], p[2]
+                if tok == NULL:
+                    raise Unsupported("member of NULL")
+                blv = ("loc", tok, path)
         else:
             blv = LV(base, st, cx)
         # a member of a union: the arm name is dropped (all arms of cbor_item_metadata that are used
@@ -387,6 +460,8 @@ def LV(n, st, cx):
         b, i = n["inner"]
         p = RV(b, st, cx)
         iv = RV(i, st, cx)
+        if p[0] == "eptr" and iv[0] == "int":
+            return ("slot", p[1], "(%s + %s)" % (p[2], iv[1]), ())
         if p[0] != "ptr" or iv[0] != "int":
             raise Unsupported("subscript")
         if p[2] != ():
@@ -396,12 +471,25 @@ def LV(n, st, cx):
         return ("slot", p[1], iv[1], ())
     if k == "UnaryOperator" and n.get("opcode") == "*":
         p = RV(n["inner"][0], st, cx)
+        if p[0] == "eptr":
+            return ("slot", p[1], p[2], ())
+        if p[0] == "ptr" and p[2] == () and p[1] != NULL and p[1][0] != "arg" and is_elem_ptr(n["inner"][0], cx):
+            return ("slot", p[1], "0", ())      # *p for a pointer into an array of item pointers
         if p[0] != "ptr":
             raise Unsupported("* on a non-pointer")
         return ("loc", p[1], p[2])
     raise Unsupported("lvalue " + str(k))
 
+ELEM_TYPES = ("cbor_item_t**", "struct cbor_item_t**", "struct cbor_pair*")
+
+def is_elem_ptr(n, cx):
+    """(decoder / serializer group only) is the expression a pointer into a slot array: cbor_item_t** or
+       struct cbor_pair*?  Such a pointer is `base + index`; *p, p[i], p->m, p++ address elements"""
+    return bool(cx.spec.get("precise")) and unconst(desugared(n)).replace(" ", "") in tuple(t.replace(" ", "") for t in ELEM_TYPES)
+
 def read(lv, n, st, cx):
+    if lv[0] == "const":
+        return ("int", lv[1])
     if lv[0] == "var":
         v = st.env[lv[1]]
         if v[0] == "uninit":
@@ -434,6 +522,8 @@ def read(lv, n, st, cx):
             if lv[1][0] == "new":
                 raise Unsupported("read of an unwritten field of a fresh block")
             if not lv[2]:
+                if cx.spec.get("precise") and lv[1][0] == "arg":
+                    return ("ptr", ("field", lv[1], "*"), ())      # what a pointer-to-pointer parameter points at
                 raise Unsupported("pointer read through a pointer to pointer")
             return ("ptr", ("field", lv[1], path_text(lv[2])), ())
         return ("objv", lv[1], lv[2])
@@ -462,7 +552,7 @@ def write(lv, val, n, st, cx):
         if val[0] == "ptr":
             if val[2] != ():
                 raise Unsupported("interior pointer stored")
-            if not lv[2]:
+            if not lv[2] and not (cx.spec.get("precise") and lv[1][0] == "arg"):
                 raise Unsupported("store through a pointer to pointer")
             st.ptrs[key] = val
             st.unknown.discard(key)
@@ -546,6 +636,11 @@ def nonnull(p, st, cx):
         return "false"
     if t[0] == "new":
         return "ok_%d" % t[1]
+    if t[0] == "arg" and t[1] in cx.spec.get("nullable", ()):
+        return "nn_%d" % t[1]               # an out-parameter the caller may pass as NULL
+    shape = ("slot", t[3]) if t[0] == "slot" else (("field", t[2]) if t[0] == "field" else None)
+    if shape in cx.spec.get("nulltests", {}):
+        return "nn_" + cx.spec["nulltests"][shape]      # is this element / child pointer non-NULL: an input
     raise Unsupported("nullness of the opaque pointer " + tok_text(t))
 
 def RV(n, st, cx):
@@ -618,7 +713,10 @@ def RV(n, st, cx):
             write(lv, v, a, st, cx)
             return v
         if op == ",":
-            raise Unsupported("comma operator")
+            if not cx.spec.get("precise"):
+                raise Unsupported("comma operator")
+            RV(a, st, cx)
+            return RV(b, st, cx)
         if op in ("&&", "||"):
             va = RV(a, st, cx)
             mark = (len(st.lets), len(st.reqs), len(st.effs), dict(st.ints), dict(st.ptrs))
@@ -630,6 +728,10 @@ def RV(n, st, cx):
         va, vb = RV(a, st, cx), RV(b, st, cx)
         if op == "+" and va[0] == "ptr" and va[2] == () and vb[0] == "int" and unconst(desugared(a)) in ("unsigned char*", "char*"):
             return ("ptroff", va[1], vb[1])      # byte pointer plus offset: only ever a call argument
+        if op == "+" and va[0] == "ptroff" and vb[0] == "int":
+            return ("ptroff", va[1], "(%s + %s)" % (va[2], vb[1]))
+        if op == "+" and va[0] in ("ptr", "eptr") and vb[0] == "int" and is_elem_ptr(a, cx) and (va[0] == "eptr" or va[2] == ()):
+            return ("eptr", va[1], "(%s + %s)" % (va[2] if va[0] == "eptr" else "0", vb[1]))
         if va[0] == "ptr" or vb[0] == "ptr":
             if op not in ("==", "!="):
                 raise Unsupported("pointer arithmetic")
@@ -707,6 +809,11 @@ def RV(n, st, cx):
         if op in ("++", "--"):
             lv = LV(x, st, cx)
             old = read(lv, x, st, cx)
+            if old[0] in ("ptr", "eptr") and lv[0] == "var" and is_elem_ptr(x, cx) and (old[0] == "eptr" or old[2] == ()):
+                off = old[2] if old[0] == "eptr" else "0"
+                new = ("eptr", old[1], "(%s %s 1)" % (off, "+" if op == "++" else "-"))
+                st.env[lv[1]] = new
+                return old if n.get("isPostfix") else new
             if old[0] != "int":
                 raise Unsupported(op + " on a non-integer")
             w, signed = int_width(qual(x) if unconst(qual(x)) in UNSIGNED else desugared(x), cx)
@@ -752,12 +859,17 @@ def arg_text(v):
         return "APO %s %s" % (tok_text(v[1]), v[2])
     if v[0] == "opq":
         return "AOpaque %d" % v[1]
+    if v[0] == "opqv":
+        return "AVal \"%s\" %s" % (v[1], tok_text(v[2]))
+    if v[0] == "eptr":
+        raise Unsupported("element pointer as a call argument")
     raise Unsupported("call argument")
 
-import re as _re
 HELPERS = _re.compile(r"^(cbor_(byte)?string_set_handle|cbor_mark_(uint|negint)|cbor_set_(uint(8|16|32|64)|float[248]|bool|ctrl))$")
 CONSTRUCTORS = _re.compile(r"^cbor_(new|build)_[a-z0-9_]+$")
 STRUCT_CALLS = {"cbor_stream_decode"}
+ENCODERS = _re.compile(r"^cbor_encode_[a-z0-9_]+$")          # write bytes into the buffer window, return the count
+FLOAT_GETTERS = _re.compile(r"^cbor_float_get_float[248]?$")
 
 def subst_arg(tok, vals):
     if tok[0] == "arg":
@@ -826,6 +938,10 @@ def call(n, st, cx):
         elif a.get("kind") == "UnaryOperator" and a.get("opcode") == "&":
             x = a["inner"][0]
             v = read(LV(x, st, cx), x, st, cx)
+        elif cx.spec.get("precise"):
+            pv = RV(args[0], st, cx)
+            if pv[0] == "eptr":          # a pointer into a slot array: the element it points at
+                v = ("ptr", ("slot", pv[1], pv[2], ""), ())
         if v is not None and v[0] == "ptr" and v[2] == ():
             if ordered:
                 # in the decoder glue a release is an event: it is ordered with the other calls
@@ -836,11 +952,36 @@ def call(n, st, cx):
         raise Unsupported("cbor_decref argument")
     if name == "memcpy":
         vals = [RV(a, st, cx) for a in args]
+        if len(vals) == 3 and vals[0][0] == "ptroff" and vals[1][0] == "ptr" and vals[1][2] == () and vals[2][0] == "int":
+            st.effs.append(((EFF_RANK["Copy"], tok_key(vals[0][1]), tok_key(vals[1][1])),
+                            "CopyAt %s %s %s %s" % (tok_text(vals[0][1]), vals[0][2], tok_text(vals[1][1]), vals[2][1]), vals[0][1]))
+            return ("void",)
         if len(vals) != 3 or vals[0][0] != "ptr" or vals[1][0] != "ptr" or vals[2][0] != "int" or vals[0][2] != () or vals[1][2] != ():
             raise Unsupported("memcpy arguments")
         st.effs.append(((EFF_RANK["Copy"], tok_key(vals[0][1]), tok_key(vals[1][1])),
                         "Copy %s %s %s" % (tok_text(vals[0][1]), tok_text(vals[1][1]), vals[2][1]), vals[0][1]))
         return ("void",)
+    if name == "__builtin_unreachable":
+        return ("void",)
+    if cx.spec.get("precise") and name in cx.spec.get("getters", {}):
+        # the payload of an integer item (read through item->data): a declared input
+        v = RV(args[0], st, cx)
+        if v[0] != "ptr" or v[2] != () or v[1] != ("arg", 0):
+            raise Unsupported("payload getter on another item")
+        return ("int", "f_" + cx.spec["getters"][name])
+    if cx.spec.get("precise") and FLOAT_GETTERS.match(name):
+        v = RV(args[0], st, cx)
+        if v[0] != "ptr" or v[2] != ():
+            raise Unsupported("float getter argument")
+        return ("opqv", name, v[1])
+    if cx.spec.get("precise") and ENCODERS.match(name) and name not in LISTED:
+        vals = [RV(a, st, cx) for a in args]
+        k = st.ncall
+        if k >= cx.spec.get("calls", 0):
+            raise Unsupported("more opaque calls on a path than declared")
+        st.reqs.append("ReqCall \"%s\" [%s]" % (name, "; ".join(arg_text(v) for v in vals)))
+        st.ncall += 1
+        return ("int", "c_%d" % k)
     if name in PURE_LEAF:
         vals = [RV(a, st, cx) for a in args]
         if any(v[0] != "int" for v in vals):
@@ -891,7 +1032,7 @@ def call(n, st, cx):
             if k >= cx.spec.get("calls", 0):
                 raise Unsupported("more opaque calls on a path than declared")
             st.ncall += 1
-        if name == cx.spec["name"]:
+        if name == cx.spec["name"] and listed.get("writes") is None:
             invalidate(st, cx, None, None)       # the recursive call: anything may have changed
         else:
             footprint(listed, vals, st, cx)
@@ -972,7 +1113,7 @@ def decl_stmt(s, st, cx):
         v = RV(init[-1], st, cx)
         if v[0] == "int":
             v = ("int", let_int(st, cx, "v_" + str(d.get("name")), v[1]))
-        elif v[0] not in ("ptr",):
+        elif v[0] not in ("ptr",) and not (cx.spec.get("precise") and v[0] in ("ptroff", "eptr", "opqv")):
             raise Unsupported("local of struct type")
         st.env[d.get("id")] = v
 
@@ -1017,6 +1158,73 @@ def switch_groups(body, st, cx):
             groups[-1][1].append(x)
     return groups
 
+def simple_body(body):
+    return not has_kind(body, ("IfStmt", "SwitchStmt", "WhileStmt", "DoStmt", "ForStmt", "GotoStmt", "ConditionalOperator#")) \
+        and sum(1 for _ in (n for n in all_nodes(body) if n.get("kind") == "ReturnStmt")) <= 1
+
+def inlinable_with_control(name, cx):
+    """a helper of the library (typically file-static) that is neither listed nor summarised, whose body
+       branches: it is inlined in continuation-passing style at statement level"""
+    if name in LISTED or name in ALLOC or name in REFCOUNT or name in PURE_LEAF or name in STRUCT_CALLS \
+       or name in ("_cbor_free", "cbor_decref", "memcpy", "__builtin_unreachable") \
+       or HELPERS.match(name) or CONSTRUCTORS.match(name) or ENCODERS.match(name) or FLOAT_GETTERS.match(name) \
+       or name in cx.spec.get("getters", {}):
+        return None
+    fn = cx.function(name)
+    if fn is None or simple_body(fn[1]):
+        return None
+    return fn
+
+def cps_inline(s, rest, st, cx):
+    """`return f(..);`, `T x = f(..);`, `x = f(..);`, `f(..);` with f a branching helper"""
+    k = s.get("kind")
+    target, callnode = None, None
+    if k == "ReturnStmt" and s.get("inner"):
+        callnode, target = cast.strip(s["inner"][0]), ("return",)
+    elif k == "DeclStmt" and len(s.get("inner", [])) == 1 and s["inner"][0].get("kind") == "VarDecl":
+        d = s["inner"][0]
+        init = [x for x in d.get("inner", []) if x.get("kind") not in ("FullComment",) and not x.get("kind", "").endswith("Attr")]
+        if init:
+            callnode, target = cast.strip(init[-1]), ("var", d.get("id"), d.get("name"))
+    elif k == "BinaryOperator" and s.get("opcode") == "=":
+        l = cast.strip(s["inner"][0])
+        if l.get("kind") == "DeclRefExpr" and l["referencedDecl"].get("id") in st.env and st.env[l["referencedDecl"]["id"]][0] != "objv":
+            callnode, target = cast.strip(s["inner"][1]), ("var", l["referencedDecl"]["id"], l["referencedDecl"].get("name"))
+    elif k == "CallExpr":
+        callnode, target = s, ("drop",)
+    if callnode is None or callnode.get("kind") != "CallExpr":
+        return None
+    f = cast.strip(callnode["inner"][0])
+    if f.get("kind") != "DeclRefExpr" or f["referencedDecl"].get("name") == cx.spec["name"]:
+        return None
+    fn = inlinable_with_control(f["referencedDecl"]["name"], cx)
+    if fn is None:
+        return None
+    decl, body = fn
+    if cx.depth >= 4:
+        raise Unsupported("inlining depth")
+    params = [p for p in decl.get("inner", []) if p.get("kind") == "ParmVarDecl"]
+    args = callnode["inner"][1:]
+    if len(params) != len(args):
+        raise Unsupported("inlined call arity")
+    vals = [RV(a, st, cx) for a in args]
+    for p_, v in zip(params, vals):
+        if v[0] == "int":
+            v = ("int", let_int(st, cx, "v_" + str(p_.get("name")), v[1]))
+        elif v[0] not in ("ptr", "eptr", "ptroff"):
+            raise Unsupported("argument of an inlined call")
+        st.env[p_.get("id")] = v
+    for n_ in all_nodes(body):
+        if n_.get("kind") in ("WhileStmt", "DoStmt", "ForStmt") and not (n_.get("kind") == "DoStmt" and is_macro_do(n_)):
+            raise Unsupported("loop inside an inlined helper")
+        if n_.get("kind") == "VarDecl" and n_.get("id") not in st.env:
+            st.env[n_.get("id")] = ("uninit",)
+    cx.depth += 1
+    try:
+        return flush(st) + S([x for x in body.get("inner", [])] + [{"kind": "#EndInline", "target": target}] + rest, st, cx)
+    finally:
+        cx.depth -= 1
+
 def S(stmts, st, cx):
     if not stmts:
         if cx.spec["ret"] != "void":
@@ -1028,8 +1236,24 @@ def S(stmts, st, cx):
         return S(rest, st, cx)
     if k == "CompoundStmt":
         return S([x for x in s.get("inner", [])] + rest, st, cx)
+    if cx.spec.get("precise") and k in ("ReturnStmt", "DeclStmt", "BinaryOperator", "CallExpr"):
+        r = cps_inline(s, rest, st, cx)
+        if r is not None:
+            return r
     if k == "ReturnStmt":
         v = RV(s["inner"][0], st, cx) if s.get("inner") else ("void",)
+        for i, x in enumerate(rest):
+            if x.get("kind") == "#EndInline":        # the return of an inlined callee
+                tgt = x["target"]
+                if tgt[0] == "return":
+                    return flush(st) + plan_text(v, st, cx)
+                if tgt[0] == "var":
+                    if v[0] == "int":
+                        v = ("int", let_int(st, cx, "v_" + str(tgt[2]), v[1]))
+                    elif v[0] not in ("ptr", "eptr"):
+                        raise Unsupported("value returned by an inlined function")
+                    st.env[tgt[1]] = v
+                return flush(st) + S(rest[i + 1:], st, cx)
         return flush(st) + plan_text(v, st, cx)
     if k == "DeclStmt":
         decl_stmt(s, st, cx)
@@ -1046,7 +1270,7 @@ def S(stmts, st, cx):
         return pre + "(if %s then\n  %s\n  else\n  %s)" % (c, t, e)
     if k == "DoStmt" and is_macro_do(s):
         return S([s["inner"][0]] + rest, st, cx)
-    if k == "ForStmt":
+    if k == "ForStmt" and not (cx.spec.get("precise") and s.get("id") in cx.loops):
         fill_loop(s, st, cx)
         return flush(st) + S(rest, st, cx)
     if not cx.spec.get("precise"):
@@ -1055,18 +1279,29 @@ def S(stmts, st, cx):
         RV(s, st, cx)
         return flush(st) + S(rest, st, cx)
     # ---- the decoder glue: switch / break, forward goto, loops as segments
-    if k in ("DoStmt", "WhileStmt"):
+    if k in ("DoStmt", "WhileStmt", "ForStmt"):
         idx = cx.loops.get(s.get("id"))
         if idx is None:
             raise Unsupported("loop")
+        if k == "ForStmt":
+            init = s["inner"][0]
+            if init.get("kind") == "DeclStmt":
+                decl_stmt(init, st, cx)
+            elif init.get("kind"):
+                RV(init, st, cx)
         if idx not in cx.loop_rest:
             cx.loop_rest[idx] = (s, rest)
-        return flush(st) + plan_text(("loop", idx), st, cx)    # control arrives at the head of loop idx
+        return flush(st) + plan_text(("loop", idx, "arrive"), st, cx)    # control arrives at the head of loop idx
+    if k == "#EndInline":
+        if s["target"][0] != "drop":
+            raise Unsupported("control reaches the end of an inlined non-void function")
+        return S(rest, st, cx)
+
     if k == "#DoTest":
         c = truth(RV(s["cond"], st, cx), st, cx)
         pre = flush(st)
         st2 = st.clone()
-        t = plan_text(("loop", s["loop"]), st, cx)
+        t = plan_text(("loop", s["loop"], "back"), st, cx)
         e = S(rest, st2, cx)
         return pre + "(if %s then\n  %s\n  else\n  %s)" % (c, t, e)
     if k == "#WhileHead":
@@ -1077,7 +1312,7 @@ def S(stmts, st, cx):
         e = S(rest, st2, cx)
         return pre + "(if %s then\n  %s\n  else\n  %s)" % (c, t, e)
     if k == "#LoopBack":
-        return flush(st) + plan_text(("loop", s["loop"]), st, cx)
+        return flush(st) + plan_text(("loop", s["loop"], "back"), st, cx)
     if k == "SwitchStmt":
         inner = [x for x in s["inner"]]
         v = RV(inner[0], st, cx)
@@ -1125,6 +1360,34 @@ def S(stmts, st, cx):
     RV(s, st, cx)
     return flush(st) + S(rest, st, cx)
 
+def is_fill_loop(s):
+    """syntactic shape of `for (T i = 0; i < n; i++) p[i] = NULL;`"""
+    inner = s.get("inner", [])
+    if len(inner) != 5:
+        return False
+    init, _, cond, inc, body = inner
+    try:
+        d = init["inner"][0]
+        ivar = d["id"]
+        zero = cast.expr([x for x in d["inner"] if x.get("kind") != "FullComment"][-1])
+        c = cast.strip(cond)
+        ci = cast.strip(c["inner"][0])
+        i2 = cast.strip(inc)
+        stmts = body.get("inner", []) if body.get("kind") == "CompoundStmt" else [body]
+        stmts = [x for x in stmts if x.get("kind") != "NullStmt"]
+        if not (init.get("kind") == "DeclStmt" and zero == ("int", 0) and c.get("kind") == "BinaryOperator" and c.get("opcode") == "<"
+                and ci.get("kind") == "DeclRefExpr" and ci["referencedDecl"]["id"] == ivar
+                and i2.get("kind") == "UnaryOperator" and i2.get("opcode") == "++" and cast.strip(i2["inner"][0])["referencedDecl"]["id"] == ivar
+                and len(stmts) == 1 and stmts[0].get("kind") == "BinaryOperator" and stmts[0].get("opcode") == "="):
+            return False
+        lhs, rhs = stmts[0]["inner"]
+        l = cast.strip(lhs)
+        if l.get("kind") != "ArraySubscriptExpr" or cast.strip(l["inner"][1]).get("referencedDecl", {}).get("id") != ivar:
+            return False
+        return cast.strip(rhs).get("kind") == "IntegerLiteral" or has_kind(rhs, ("IntegerLiteral",)) and not has_kind(rhs, ("CallExpr", "DeclRefExpr"))
+    except (KeyError, IndexError, TypeError):
+        return False
+
 def fill_loop(s, st, cx):
     """for (T i = 0; i < n; i++) p[i] = NULL;  ->  one summarised effect `Fill p n PNull`"""
     inner = s.get("inner", [])
@@ -1162,8 +1425,25 @@ def fill_loop(s, st, cx):
 
 def plan_text(v, st, cx):
     want = cx.spec["ret"]
+    loop_extra = []
     if v[0] == "loop":
         r = "(RLoop %d)" % v[1]
+        info = cx.loopinfo.get(v[1])
+        if info is not None:
+            own = (cx.segment == v[1] and v[2] == "back")
+            snap = {}
+            for sid in cx.scalars:
+                if sid in st.env and st.env[sid][0] in ("int", "ptr", "eptr"):
+                    snap[sid] = expand_val(st, st.env[sid])
+            if cx.phase == "A":
+                (info["backs"] if own else info["arrivals"]).append(snap)
+            elif info["assigned"]:
+                for j, sid in enumerate(info["accs"]):
+                    val = st.env.get(sid)
+                    if val is None or val[0] != "int":
+                        raise Unsupported("loop accumulator without a value at the loop head")
+                    loop_extra.append("(\"acc%d\", %s)" % (j, val[1]))
+                loop_extra.append("(\"round\", %s)" % ("(v_k + 1)" if own else "0"))
     elif v[0] == "void":
         if want != "void":
             raise Unsupported("return without a value")
@@ -1185,6 +1465,8 @@ def plan_text(v, st, cx):
             continue                 # a field of a call result is an input (an oracle), never an output
         if key in st.ints:
             val = st.ints[key]
+        elif cx.spec.get("readonly"):
+            continue                 # a function over a const item: only what it writes is reported
         elif is_invalid(key, st, cx) or reach_invalid(key, st):
             continue                 # unknown after an opaque call: not reported
         else:
@@ -1206,6 +1488,7 @@ def plan_text(v, st, cx):
                          "SetInt %s \"%s\" %s" % (tok_text(tok), path_text(path), val)))
     effs = [(e[0], e[1]) for e in effs]
     effs.sort(key=lambda e: e[0])
+    fields += loop_extra
     return "(mkplan %s\n    [%s]\n    [%s]\n    [%s])" % (r, "; ".join(fields), "; ".join(st.reqs), "; ".join(e[1] for e in effs))
 
 # ------------------------------------------------------------------------------------------
@@ -1224,6 +1507,8 @@ def loc(s):
         tok = ("arg", int(root))
     for mid in parts[1:-1]:
         tok = ("field", tok, mid)
+    if parts[-1] == "*":
+        return (tok, ())             # the object an out-parameter points at
     return (tok, tuple(parts[-1].split(".")))
 
 def F(rel, name, params, fields=None, oracles=0, calls=0, ret="int", writes=None, group="containers",
@@ -1321,9 +1606,44 @@ FUNCTIONS = [
       post={STACK_T + "->size": "size", CTX_T + "->creation_failed": "creation_failed", CTX_T + "->syntax_error": "syntax_error"},
       ret="ptr", group="load", loops=2),
 ]
+# ---- serialization.c (group "ser"): calls of encoders / of each other are ordered events with an
+# integer result oracle; loops are cut at their heads with the round number v_k and the running
+# total a_0 as inputs
+ITEM = {"0->type": "type", "0->metadata.width": "width", "0->metadata.length": "length", "0->metadata.type": "dst",
+        "0->metadata.end_ptr": "end_ptr", "0->metadata.allocated": "allocated", "0->metadata.value": "value",
+        "0->metadata.ctrl": "ctrl", "0->data->chunk_count": "chunk_count"}
+def item_fields(*names):
+    return {k: v for k, v in ITEM.items() if v in names}
+GET_INT = {"cbor_get_uint8": "get8", "cbor_get_uint16": "get16", "cbor_get_uint32": "get32", "cbor_get_uint64": "get64"}
+SER = "cbor/serialization.c"
+def ser(name, fields, **kw):
+    kw.setdefault("calls", 1)
+    return F(SER, name, kw.pop("params", ["ptr", "ptr", "int"]), item_fields(*fields), group="ser", writes=[], readonly=True, **kw)
+FUNCTIONS += [
+    ser("cbor_serialize", ["type"]),
+    ser("cbor_serialize_uint", ["width"], getters=GET_INT),
+    ser("cbor_serialize_negint", ["width"], getters=GET_INT),
+    ser("cbor_serialize_bytestring", ["dst", "length", "chunk_count"], loops=1, accs=1),
+    ser("cbor_serialize_string", ["dst", "length", "chunk_count"], loops=1, accs=1),
+    ser("cbor_serialize_array", ["dst", "end_ptr", "allocated"], loops=1, accs=1),
+    ser("cbor_serialize_map", ["dst", "end_ptr", "allocated"], loops=1, accs=1, calls=2),
+    ser("cbor_serialize_tag", ["value"], calls=2),
+    ser("cbor_serialize_float_ctrl", ["width", "ctrl"]),
+    ser("cbor_serialized_size", ["type", "width", "length", "dst", "end_ptr", "allocated", "value", "ctrl", "chunk_count"],
+        params=["ptr"], getters={"cbor_get_uint8": "get8"}, loops=4, accs=1, calls=2),
+    F(SER, "cbor_serialize_alloc", ["ptr", "ptr", "ptr"], {"2->*": "out_size"}, oracles=1, calls=2, group="ser",
+      writes=["1->*", "2->*"], nullable=(2,), readonly=True),
+]
+# ---- reference counting (group "ref"): cbor_decref with its per-type release order
+DEC = {"0->*->refcount": "refcount", "0->*->type": "type", "0->*->metadata.type": "dst",
+       "0->*->metadata.end_ptr": "end_ptr", "0->*->data->chunk_count": "chunk_count"}
+FUNCTIONS += [
+    F("cbor/common.c", "cbor_decref", ["ptr"], DEC, ret="void", group="ref", loops=4, accs=0, readonly=True,
+      nulltests={("slot", ""): "elem", ("slot", "value"): "value", ("field", "metadata.tagged_item"): "child"}),
+]
 LISTED = {f["name"] for f in FUNCTIONS}
 LISTED_BY_NAME = {f["name"]: f for f in FUNCTIONS}
-GROUPS = {"containers": "Gen_effects.v", "load": "Gen_effects_load.v"}
+GROUPS = {"containers": "Gen_effects.v", "load": "Gen_effects_load.v", "ser": "Gen_effects_ser.v", "ref": "Gen_effects_ref.v"}
 
 def gname(name):
     return "G" + name
@@ -1338,6 +1658,16 @@ def signature(spec, pnames=None):
     for i, kd in enumerate(spec["params"]):
         if kd == "int":
             b.append("(v_p%d : Z)" % i)
+    for nm in sorted(spec.get("getters", {}).values()):
+        b.append("(f_%s : Z)" % nm)
+    if "accs" in spec:
+        b.append("(v_k : Z)")
+        for j in range(spec["accs"]):
+            b.append("(a_%d : Z)" % j)
+    for i in sorted(spec.get("nullable", ())):
+        b.append("(nn_%d : bool)" % i)
+    for nm in sorted(spec.get("nulltests", {}).values()):
+        b.append("(nn_%s : bool)" % nm)
     for k in range(spec["oracles"]):
         b.append("(ok_%d : bool)" % k)
     for k in range(spec.get("calls", 0)):
@@ -1393,7 +1723,9 @@ def translate_function(spec, cfg, sizes, alltu):
         return [("", "Definition %s %s : plan :=\n  %s." % (gname(spec["name"]), signature(spec), txt))]
     # struct locals are objects named by their type; labels; loops in source order
     seen = {}
-    scalars = []
+    for p_, kd in zip(params, spec["params"]):
+        if kd in ("int", "ptr"):
+            cx.scalars[p_.get("id")] = (p_.get("name"), desugared(p_))
     for n in all_nodes(body):
         if n.get("kind") == "VarDecl":
             tok = struct_local(n, cx)
@@ -1403,38 +1735,161 @@ def translate_function(spec, cfg, sizes, alltu):
                 seen[tok] = n.get("id")
                 st.env[n.get("id")] = ("objv", tok, ())
             else:
-                scalars.append(n.get("id"))
+                cx.scalars[n.get("id")] = (n.get("name"), desugared(n))
     top = [x for x in body.get("inner", [])]
     for i, x in enumerate(top):
         if x.get("kind") == "LabelStmt":
             cx.labels[x.get("declId")] = top[i:]
+    loopnodes = []
     for n in all_nodes(body):
         if n.get("kind") == "LabelStmt" and n.get("declId") not in cx.labels:
             raise Unsupported("label inside a block")
-        if n.get("kind") == "WhileStmt" or (n.get("kind") == "DoStmt" and not is_macro_do(n)):
+        if n.get("kind") == "WhileStmt" or (n.get("kind") == "DoStmt" and not is_macro_do(n)) \
+           or (n.get("kind") == "ForStmt" and not is_fill_loop(n)):
             cx.loops[n.get("id")] = len(cx.loops)
-        if n.get("kind") == "ForStmt" and False:
-            pass
+            loopnodes.append(n)
     if len(cx.loops) != spec.get("loops", 0):
         raise Unsupported("number of loops changed")
+    for idx, node in enumerate(loopnodes):
+        parts = node["inner"][2:] if node["kind"] == "ForStmt" else node["inner"]
+        inside = set(x.get("id") for part in parts for x in all_nodes(part) if x.get("kind") == "VarDecl")
+        cx.loopinfo[idx] = {"assigned": [sid for sid in cx.scalars if sid not in inside and any(assigns(x, sid) for x in parts)],
+                            "arrivals": [], "backs": [], "class": {}, "accs": []}
+        for other in loopnodes:
+            if other is not node and any(x is other for x in all_nodes(node)):
+                raise Unsupported("nested loops")
     env0 = dict(st.env)
-    out = [("", "Definition %s %s : plan :=\n  %s." % (gname(spec["name"]), signature(spec), S([body], st, cx)))]
-    for idx in range(len(cx.loops)):
-        if idx not in cx.loop_rest:
-            raise Unsupported("loop %d is not reached" % idx)
-        node, rest = cx.loop_rest[idx]
-        st = St()
-        st.env = dict(env0)
-        for sid in scalars:
-            st.env[sid] = ("stale",)
-        if node["kind"] == "DoStmt":
-            b, cond = node["inner"]
-            stmts = [b, {"kind": "#DoTest", "cond": cond, "loop": idx}] + rest
+
+    def segment_env(idx):
+        info = cx.loopinfo[idx]
+        env = dict(env0)
+        for sid, (nm, ty) in cx.scalars.items():
+            isptr = is_ptr_type(ty)
+            if sid in info["assigned"]:
+                if cx.phase == "A":
+                    env[sid] = ("eptr", ("lsym", sid), "0") if isptr else ("int", "L_%s" % sid)
+                else:
+                    env[sid] = info["class"][sid][1]
+            else:
+                vals = [a.get(sid) for a in info["arrivals"]]
+                if vals and all(v is not None and v == vals[0] for v in vals) and closed(vals[0]):
+                    env[sid] = vals[0]
+                elif sid in env0 and env0[sid][0] in ("int", "ptr") and not any(assigns(body, sid) for _ in (0,)):
+                    env[sid] = env0[sid]          # a parameter that is never assigned
+                else:
+                    env[sid] = ("stale",)
+        return env
+
+    def run():
+        cx.n = 0
+        cx.loop_rest = {}
+        cx.segment = None
+        st0 = St(); st0.env = dict(env0)
+        out = [("", "Definition %s %s : plan :=\n  %s." % (gname(spec["name"]), signature(spec), S([body], st0, cx)))]
+        for idx in range(len(cx.loops)):
+            if idx not in cx.loop_rest:
+                raise Unsupported("loop %d is not reached" % idx)
+            node, rest = cx.loop_rest[idx]
+            st1 = St()
+            st1.env = segment_env(idx)
+            cx.segment = idx
+            if node["kind"] == "DoStmt":
+                b, cond = node["inner"]
+                stmts = [b, {"kind": "#DoTest", "cond": cond, "loop": idx}] + rest
+            elif node["kind"] == "ForStmt":
+                inner = [x for x in node["inner"]]
+                bodyl = [inner[4]] + ([inner[3]] if inner[3].get("kind") else [])
+                if not inner[2].get("kind"):
+                    raise Unsupported("for loop without a condition")
+                stmts = [{"kind": "#WhileHead", "cond": inner[2], "body": {"kind": "CompoundStmt", "inner": bodyl}, "loop": idx}] + rest
+            else:
+                inner = [x for x in node["inner"]]
+                stmts = [{"kind": "#WhileHead", "cond": inner[0], "body": inner[-1], "loop": idx}] + rest
+            out.append(("_loop%d" % idx, "Definition %s_loop%d %s : plan :=\n  %s." % (gname(spec["name"]), idx, signature(spec), S(stmts, st1, cx))))
+        cx.segment = None
+        return out
+
+    if not any(info["assigned"] for info in cx.loopinfo.values()):
+        cx.phase = "B"
+        return run()
+    cx.phase = "A"
+    run()
+    for idx, info in cx.loopinfo.items():
+        classify(idx, info, cx)
+    cx.phase = "B"
+    return run()
+
+def assigns(n, sid):
+    """does the subtree assign / increment the variable with declaration id sid?"""
+    for x in all_nodes(n):
+        k = x.get("kind")
+        tgt = None
+        if (k == "BinaryOperator" and x.get("opcode") == "=") or k == "CompoundAssignOperator":
+            tgt = cast.strip(x["inner"][0])
+        elif k == "UnaryOperator" and x.get("opcode") in ("++", "--"):
+            tgt = cast.strip(x["inner"][0])
+        elif k == "UnaryOperator" and x.get("opcode") == "&":
+            tgt = cast.strip(x["inner"][0])
+        if tgt is not None and tgt.get("kind") == "DeclRefExpr" and tgt.get("referencedDecl", {}).get("id") == sid:
+            return True
+    return False
+
+def closed(v):
+    """a value that depends only on the function's inputs (no per-path oracle, no loop state)"""
+    txt = repr(v)
+    return not _re.search(r"\b(c_\d|ok_\d|a_\d|v_k\b|L_0x|lsym)", txt)
+
+def classify(idx, info, cx):
+    """loop-carried scalars: a counter (+1 / -1 per round on every back edge, known start) becomes an
+       affine function of the round number v_k; an untouched one keeps its start value; any other
+       integer is an accumulator a_j (an input of the round, its new value reported at the back edge)"""
+    accs = []
+    for sid in info["assigned"]:
+        nm, ty = cx.scalars[sid]
+        backs = [b.get(sid) for b in info["backs"]]
+        inits = [a.get(sid) for a in info["arrivals"]]
+        init = inits[0] if inits and all(x is not None and x == inits[0] for x in inits) and closed(inits[0]) else None
+        if is_ptr_type(ty):
+            ph = ("lsym", sid)
+            if init is None or init[0] not in ("ptr", "eptr") or (init[0] == "ptr" and init[2] != ()):
+                raise Unsupported("loop-carried pointer %s without a known start" % nm)
+            base, off0 = init[1], (init[2] if init[0] == "eptr" else "0")
+            if backs and all(b == ("eptr", ph, "(0 + 1)") for b in backs):
+                info["class"][sid] = ("inc", ("eptr", base, "(%s + v_k)" % off0))
+            elif all(b == ("eptr", ph, "0") for b in backs):
+                info["class"][sid] = ("inv", init)
+            else:
+                raise Unsupported("loop-carried pointer %s is not advanced by one per round" % nm)
+            continue
+        try:
+            w, signed = int_width(ty if unconst(ty) in UNSIGNED or unconst(ty) in SIGNED else ty, cx)
+        except Unsupported:
+            raise Unsupported("loop-carried local %s" % nm)
+        ph = "L_%s" % sid
+        def shape(op):
+            t1 = "(%s %s 1)" % (ph, op)
+            return ("int", t1 if signed else wrapz(w, t1))
+        def norm(b):
+            return None if b is None else (b[0], unparen(b[1].replace("((%s))" % ph, ph).replace("(%s)" % ph, ph))) if b[0] == "int" else b
+        nb = [norm(b) for b in backs]
+        def aff(op):
+            t = "(%s %s v_k)" % (init[1], op)
+            return ("int", t if signed else wrapz(w, t))
+        if init is not None and init[0] == "int" and nb and all(b == shape("+") for b in nb):
+            info["class"][sid] = ("inc", aff("+"))
+        elif init is not None and init[0] == "int" and nb and all(b == shape("-") for b in nb):
+            info["class"][sid] = ("dec", aff("-"))
+        elif init is not None and all(b == ("int", ph) for b in nb):
+            info["class"][sid] = ("inv", init)
         else:
-            inner = [x for x in node["inner"]]
-            stmts = [{"kind": "#WhileHead", "cond": inner[0], "body": inner[-1], "loop": idx}] + rest
-        out.append(("_loop%d" % idx, "Definition %s_loop%d %s : plan :=\n  %s." % (gname(spec["name"]), idx, signature(spec), S(stmts, st, cx))))
-    return out
+            info["class"][sid] = ("acc", ("int", "a_%d" % len(accs)))
+            accs.append(sid)
+    if "accs" not in cx.spec and any(c[0] in ("inc", "dec", "acc") for c in info["class"].values()):
+        nm = [cx.scalars[sid][0] for sid, c in info["class"].items() if c[0] in ("inc", "dec", "acc")][0]
+        raise Unsupported("scalar local %s is live across a loop" % nm)
+    if len(accs) > cx.spec.get("accs", 0):
+        raise Unsupported("more loop accumulators than declared")
+    info["accs"] = accs
 
 def translate_all(cfg, sizes):
     out, notes = [], []
@@ -1479,9 +1934,9 @@ ENUMS_LOAD = ("CBOR_TYPE_BYTESTRING", "CBOR_TYPE_STRING", "CBOR_ERR_NONE", "CBOR
 def emit(fns, enums, conf=None, group="containers", alltu_enums=None):
     lines = ["(* GENERATED by translator/effects.py from the clang AST of /repo/src — do not edit *)",
              "From Coq Require Import ZArith List Bool String.", "Import ListNotations.",
-             "From CB Require Import GenLeafTypes HPlans%s." % (" HPlansLoad" if group == "load" else ""),
+             "From CB Require Import GenLeafTypes HPlans%s." % {"load": " HPlansLoad", "ser": " HPlansSer", "ref": " HPlansRef"}.get(group, ""),
              "Local Open Scope string_scope.", "Local Open Scope Z_scope.", "Local Open Scope bool_scope.", ""]
-    names = ENUMS if group == "containers" else ENUMS_LOAD
+    names = {"containers": ENUMS, "load": ENUMS_LOAD, "ser": ENUMS_SER, "ref": ()}[group]
     table = enums if group == "containers" else (alltu_enums or {})
     for nm in names:
         if nm in table:
@@ -1508,15 +1963,19 @@ def emit(fns, enums, conf=None, group="containers", alltu_enums=None):
         lines.append("")
     return "\n".join(lines)
 
+ENUMS_SER = ("CBOR_TYPE_UINT", "CBOR_TYPE_NEGINT", "CBOR_TYPE_BYTESTRING", "CBOR_TYPE_STRING", "CBOR_TYPE_ARRAY", "CBOR_TYPE_MAP",
+             "CBOR_TYPE_TAG", "CBOR_TYPE_FLOAT_CTRL", "CBOR_INT_8", "CBOR_INT_16", "CBOR_INT_32", "CBOR_INT_64",
+             "CBOR_FLOAT_0", "CBOR_FLOAT_16", "CBOR_FLOAT_32", "CBOR_FLOAT_64")
+
 def load_enums(cfg):
-    """the enumerators the decoder-glue plans mention, from cbor.c's translation unit"""
+    """the enumerators the decoder-glue / serializer plans mention"""
     out = {}
-    for rel in ("cbor.c", "cbor/internal/builder_callbacks.c"):
+    for rel in ("cbor.c", "cbor/internal/builder_callbacks.c", "cbor/serialization.c"):
         try:
             tu = load_tu(os.path.join(cast.REPO, "src", rel), cfg["incs"], cfg["defs"])
         except RuntimeError:
             continue
-        for nm in ENUMS_LOAD:
+        for nm in ENUMS_LOAD + ENUMS_SER:
             if nm in tu["enums"]:
                 out[nm] = tu["enums"][nm]
     return out
